@@ -26,6 +26,8 @@ CONSTANTS
     Buffered,       \* TRUE: output frames may carry any number of units (stdio buffering is not part of the property);
                     \* FALSE: one frame per unit (line-buffered stream, one println per unit) - fewer interleavings
     Gaps,           \* "all": every arrival schedule (for scenario generation); "overlap": only the most general one
+    DropExit,       \* FALSE: the exit frame carries the standalone exit status (what C17 needs); TRUE: deviation switch
+                    \* VMD_DROPS_EXIT - the daemon reports 0 for every run that completes, 1 for a failed one (finding F12b)
     KeepData,       \* TRUE: frames in `sent` carry their data (model checking); FALSE: only their type (trace validation
                     \* of long outputs: the content is compared when the frame is written, not kept)
     ExternalProg(_),\* observation of a module that is not one of the abstract ones (trace validation: measured by running
@@ -151,7 +153,7 @@ Others(K) == {k \in [Clients -> K \cup {"exec"}] :
                  /\ (Gaps = "all" \/ \A c \in 1 .. N - 2 : KindIndex(k[c]) <= KindIndex(k[c + 1]))}
 SmallKinds == {"hostile", "disc_mid", "trunc1", "badver", "status", "zerolen"}
 KindChoices ==
-    CASE Suite \in {"c17", "c17q", "c17l", "crc"} -> [Clients -> {"exec"}]
+    CASE Suite \in {"c17", "c17q", "c17l", "c17x", "crc"} -> [Clients -> {"exec"}]
       [] Suite = "c18"  -> Others(IF Gaps = "all" THEN AllKinds \ {"exec"} ELSE RepKinds \ {"exec"})
       [] Suite = "c18s" -> Others(SmallKinds)
       [] Suite = "c18l" -> Others({"hostile", "disc_mid", "trunc1", "status"})
@@ -164,6 +166,7 @@ ModChoices(k) ==
     ELSE IF Suite = "c17q" THEN Sorted([Clients -> {"zero", "many", "fail"}]) \cup {[c \in Clients |-> "one"], [c \in Clients |-> "code"]}
     ELSE IF Suite = "c17l" THEN Sorted([Clients -> {"one", "fail"}])
     ELSE IF Suite = "crc" THEN {[c \in Clients |-> "one"]}
+    ELSE IF Suite = "c17x" THEN {[c \in Clients |-> "code"]}
     ELSE {[c \in Clients |-> IF k[c] \in ExecKinds THEN "two" ELSE "zero"]}
 \* "after" schedules are sub-behaviours of "overlap" (a client may always arrive late), so model checking needs only
 \* the all-overlap schedule; the generator configurations (Gaps = "all") enumerate both for replay.
@@ -310,9 +313,10 @@ S_SendRtErr(c, ok) ==   \* "Runtime error: ..." exactly as standalone prints it
     /\ up /\ sst[c] = "flush" /\ flushed[c] = pos[c] /\ ProgOf(c).err # ""
     /\ S_Send(c, Frame("err", c, IF KeepData THEN ProgOf(c).err ELSE "", 0, TRUE), ok) /\ S_Goto(c, "exit")
     /\ UNCHANGED <<rpos, loaded, pos, flushed, sopen, stat, active, crcflag, crcpc>>
+ExitCode(c) == IF DropExit THEN (IF ProgOf(c).err = "" THEN 0 ELSE 1) ELSE ProgOf(c).exit
 S_SendExit(c, ok) ==
     /\ up /\ ((sst[c] = "flush" /\ flushed[c] = pos[c] /\ ProgOf(c).err = "") \/ sst[c] = "exit")
-    /\ S_Send(c, Frame("exit", c, "", ProgOf(c).exit, TRUE), ok) /\ S_Goto(c, "cleanup")
+    /\ S_Send(c, Frame("exit", c, "", ExitCode(c), TRUE), ok) /\ S_Goto(c, "cleanup")
     /\ UNCHANGED <<rpos, loaded, pos, flushed, sopen, stat, active, crcflag, crcpc>>
 S_Pong(c, ok) ==
     /\ up /\ sst[c] = "pong"
